@@ -273,15 +273,10 @@ def signature(case, impl, models):
         ev = t[2:]
         if k >= len(ev):
             return "none"
-        if ev[k].startswith("a:0:"):
-            return "pppoe-empty-request-id"
-        # the step at which LCP leaves Opened: repaired resets pending auth and brings the NCPs down
-        sd = steps(dfc)
-        before = sd[k - 1].split("|")[1].split(",") if k > 0 else []
-        after = sd[k].split("|")[1].split(",")
-        for b, a in zip(before, after):
-            if len(b) > 2 and len(a) > 2 and b[2] == "9" and a[2] != "9":
-                return "pppoe-lcp-down-no-reset"
+        # repaired tears the session down when its authentication is rejected (or fails); today's code only
+        # closes LCP, so a rejected RE-authentication keeps the pool lease and the dataplane session
+        if ev[k].startswith("a:") and ev[k].split(":")[2] in ("rej", "err"):
+            return "pppoe-reject-no-teardown"
         return "pppoe-unexplained"
     if t[0] == "ipoe":
         # repaired ignores an answer when no request is in flight; today's code applies it.  The effect may
